@@ -5,6 +5,7 @@ import (
 	"errors"
 	"fmt"
 	"strconv"
+	"strings"
 	"sync"
 
 	"github.com/openbao/openbao/sdk/v2/logical"
@@ -18,6 +19,7 @@ var ErrInjected = errors.New("verifsim: injected storage error")
 // transaction is one Mut with several writes (atomic).
 type Mut struct {
 	Seq    int
+	Step   int // scheduler step at which it became durable
 	Writes []KVWrite
 	Task   string
 	ReqID  string
@@ -105,7 +107,11 @@ func (d *Disk) appendMut(ctx context.Context, ws []KVWrite) {
 	if d.sim != nil && d.sim.cur != nil {
 		task = d.sim.cur.Name
 	}
-	d.Log = append(d.Log, Mut{Seq: len(d.Log) + 1, Writes: ws, Task: task, ReqID: reqID(ctx)})
+	step := 0
+	if d.sim != nil {
+		step = d.sim.Steps
+	}
+	d.Log = append(d.Log, Mut{Seq: len(d.Log) + 1, Step: step, Writes: ws, Task: task, ReqID: reqID(ctx)})
 	for _, w := range ws {
 		if w.Val == nil {
 			d.kv.Delete(w.Key)
@@ -496,4 +502,61 @@ func (d *Disk) EverWritten(prefix string) []string {
 		}
 	}
 	return out
+}
+
+// FirstPutSeq / LastDelSeq return the log sequence numbers (1-based) of the
+// first put / last delete of a key (0: none).
+func (d *Disk) FirstPutSeq(key string) int {
+	d.mu.Lock()
+	defer d.mu.Unlock()
+	for _, m := range d.Log {
+		for _, w := range m.Writes {
+			if w.Key == key && w.Val != nil {
+				return m.Seq
+			}
+		}
+	}
+	return 0
+}
+
+func (d *Disk) LastDelSeq(prefix string) int {
+	d.mu.Lock()
+	defer d.mu.Unlock()
+	last := 0
+	for _, m := range d.Log {
+		for _, w := range m.Writes {
+			if w.Val == nil && len(w.Key) >= len(prefix) && w.Key[:len(prefix)] == prefix {
+				last = m.Seq
+			}
+		}
+	}
+	return last
+}
+
+// FirstPutStep returns the scheduler step of the first put of key (-1: none).
+func (d *Disk) FirstPutStep(key string) int {
+	d.mu.Lock()
+	defer d.mu.Unlock()
+	for _, m := range d.Log {
+		for _, w := range m.Writes {
+			if w.Key == key && w.Val != nil {
+				return m.Step
+			}
+		}
+	}
+	return -1
+}
+
+// LastOpStep returns the scheduler step of the last recorded operation `op`
+// whose key has the given prefix (-1: none; needs RecordOps).
+func (d *Disk) LastOpStep(op, prefix string) int {
+	d.mu.Lock()
+	defer d.mu.Unlock()
+	last := -1
+	for _, o := range d.Ops {
+		if o.Op == op && strings.HasPrefix(o.Key, prefix) {
+			last = o.Step
+		}
+	}
+	return last
 }
